@@ -33,12 +33,19 @@ Numbers == { <<48>>, <<55>>, <<52, 50>>, <<49, 46, 53>>, <<48, 46, 53>>, <<49, 1
              <<49, 101, 52, 48, 48>>, <<48, 46, 49>>, <<49, 50, 51, 52, 53, 54, 55, 56, 57, 48, 49, 50, 51, 52, 53, 54, 55, 56, 57, 48>>,
              <<48, 56>>, <<49, 46, 48, 48>>, <<48, 120, 102, 102, 102, 102, 102, 102, 102, 102, 102, 102>> }
 
+\* the decimal literal grammar, shape by shape: integer part x fraction (none, bare dot, digits) x exponent
+\* (none, with / without sign, without digits); what JavaScript does not accept as source is skipped by the driver
+IntParts == {<<48>>, <<55>>, <<52, 50>>, <<49, 48>>}
+Fracs == {<<>>, <<46>>, <<46, 53>>, <<46, 48>>, <<46, 50, 53>>}
+Exps == {<<>>, <<101, 51>>, <<69, 43, 51>>, <<101, 45, 50>>, <<101>>, <<101, 43>>, <<69, 48>>}
+DecimalShapes == {i \o f \o e : i \in IntParts, f \in Fracs, e \in Exps}
+
 \* string literals in property-name position: bodies that look like numbers must stay strings
 KeyBodies == {<<49, 101, 51>>, <<48, 120, 49, 48>>, <<48, 49, 48>>, <<48, 48>>, <<97>>, <<49>>, <<49, 46, 48>>, <<92, 120, 51, 49, 101, 51>>}
 Init == \/ kind = "str" /\ q \in {34, 39} /\ body = <<>>
         \/ kind = "key" /\ q \in {34, 39} /\ body \in {<<b>> : b \in KeyBodies}
         \/ kind = "raw" /\ q = 96 /\ body = <<>>
-        \/ kind = "num" /\ q = 0 /\ body \in {<<n>> : n \in Numbers}
+        \/ kind = "num" /\ q = 0 /\ body \in {<<n>> : n \in Numbers \cup DecimalShapes}
         \/ kind = "sweepx" /\ q = 34 /\ body \in {<<<<92, 120>> \o Hex2(v)>> : v \in (IF Sweep THEN 0..255 ELSE {})}
         \/ kind = "sweepu" /\ q = 34 /\ body \in {<<<<92, 117>> \o Hex4(v)>> : v \in (IF Sweep THEN 0..65535 ELSE {})}
 Next == /\ kind \in {"str", "raw"} /\ Len(body) < MaxAtoms
